@@ -246,6 +246,7 @@ WIRINGS = {
     'conn_list': dict(p_shape=(4,), first=dict(how='connect', chain=[([3, 0, 1], False)])),
     'conn_neg': dict(p_shape=(4,), first=dict(how='connect', chain=[([-1, 0, -3], False)])),
     'conn_dup': dict(p_shape=(4,), first=dict(how='connect', chain=[([0, 0, 2], False)])),
+    'conn_dup_far': dict(p_shape=(4,), first=dict(how='connect', chain=[([2, 0, 2], False)])),
     'conn_slice': dict(p_shape=(4,), first=dict(how='connect', chain=[(slice(1, 4), False)])),
     'conn_negstep': dict(p_shape=(4,),
                          first=dict(how='connect', chain=[(slice(None, None, -1), False)])),
